@@ -203,16 +203,20 @@ class TriggerHandler:
 
     def __process_call_backs(self, ctx: 'TriggerContext', arg: any, frame: FrameType, event: str, file: str, line: int,
                              function_name: str):
-        # remove top context
-        context: CallbackContext = self._callbacks.value.pop()
-        # if it is for our location process it
-        if context.at_location(event, file, line, function_name, frame):
-            logging.debug("At callback location %s", context.name)
-            context.process(ctx, event, frame, arg)
-        else:
-            logging.debug("Not at callback location %s", context.name)
-            # else put the context back on the queue
-            self._callbacks.value.append(context)
+        # more than one context can be due on the same event (e.g. a line and the method it is in both end with this
+        # exception), so keep going until the top context is not for our location
+        while len(self._callbacks.value) > 0:
+            # remove top context
+            context: CallbackContext = self._callbacks.value.pop()
+            # if it is for our location process it
+            if context.at_location(event, file, line, function_name, frame):
+                logging.debug("At callback location %s", context.name)
+                context.process(ctx, event, frame, arg)
+            else:
+                logging.debug("Not at callback location %s", context.name)
+                # else put the context back on the queue
+                self._callbacks.value.append(context)
+                break
 
         if len(self._callbacks.value) == 0:
             logging.debug("Callbacks cleared.")
